@@ -488,6 +488,15 @@ func (u *Universe) NestedDanglingOps(rng *rand.Rand, repo, tag string) []*Op {
 	}
 	inner := ocispec.Index{MediaType: MTIndex, Manifests: children}
 	inner.SchemaVersion = 2
+	if rng.IntN(2) == 0 {
+		// the inner index also has a subject: a manifest that is present (walked like a child, and
+		// leading nowhere near the images) or one that was never pushed
+		sd := desc(MTImage, mkBlob("absent subject"))
+		if rng.IntN(3) > 0 {
+			sd, _ = image("subject image")
+		}
+		inner.Subject = &sd
+	}
 	innerData, _ := json.Marshal(inner)
 	ops = append(ops, &Op{Kind: "PushManifest", Repo: repo, Data: innerData, MediaType: MTIndex})
 	gone := rng.IntN(nImages) // the entry that will dangle
